@@ -37,8 +37,12 @@ if st:
 r = sh(["git", "-C", "/repo", "apply"] + (["--3way"] if a.threeway else []) + [os.path.abspath(a.diff)])
 if r.returncode != 0:
     sys.exit("PATCH DOES NOT APPLY:\n" + r.stderr)
-r = sh([os.path.join(VERIF, "tools", "baseline_off.sh")])
-ok = "100% tests passed" in r.stdout
+for attempt in range(3):     # the suite has timing-sensitive tests that flake under load: retry before giving up
+    r = sh([os.path.join(VERIF, "tools", "baseline_off.sh")])
+    ok = "100% tests passed" in r.stdout
+    if ok:
+        break
+    print("test suite attempt %d failed:" % (attempt + 1), [l for l in r.stdout.splitlines() if "Failed" in l or "***" in l][:5])
 print((r.stdout + r.stderr)[-600:])
 if not ok:
     sh("git -C /repo checkout -- .")
